@@ -115,3 +115,10 @@ PROPS["C20"] = dict(num=20, labs=["par"], rule=PAR_RULE, nontrivial="fallback-se
     signatures={"20.1": "method sack produced a SYN trace / neither a SACK trace nor an error", "20.2": "method syn attempted SACK (opened a TCP connection)", "20.3": "prefer_sack: SYN fallback taken although SACK is available, or not taken although it is unavailable",
                 "20.4": "prefer_sack: a non-capability SACK failure was masked or lost its cause", "20.9": "crashed"},
     trusted_base=PAR_TRUSTED, assumptions=["the loopback listener's accept count equals the TCP connections the run opened"])
+
+ISO_RULE = ("Allocator lab: packets.AllocPacketID sequences of 1..12 blocks (sizes incl. 1, 30, 255) from counter values at and around the 2^16 and 2^32 wraps, sequentially and from concurrent goroutines; icmp.nextEchoID sequences. "
+            "Driver lab, two-run part: for every variant a second run to the same target with the identifiers the allocators / the OS would hand it is alive at the same time; each run is fed every genuine reply to the other's probes.")
+PROPS["C11"] = dict(num=11, labs=["iso", "drv"], rule=ISO_RULE + " " + DRV_RULE, nontrivial="any case", trivial_classes=[],
+    signatures={"11.1": "a reply to another concurrent run's probe became a hop of this run", "11.2": "identifier blocks of live runs overlap", "11.3": "echo identifiers repeat", "1": "a hop was reported for a packet that is not a genuine reply to this run's probe", "1.9": "hop from unparseable bytes"},
+    trusted_base=DRV_TRUSTED + ["sync/atomic Add is linearisable (the allocator model is sequential)", "the OS never hands one local port to two sockets held at the same time (oracle)"],
+    assumptions=["runs with relaxed quoted-source checking to one target are distinguished by 32-bit random ISNs only (named residue)"])
